@@ -79,6 +79,22 @@ class Check(HCheck):
                     if sorted(got) != sorted(exp):
                         ctx.fail("pagelinks", "page links of webentity %r (prefixes %s; inbound=%s internal=%s outbound=%s) are %s; page links and resolution give %s" % (wid, _pl(order), inb, inte, outb, _sh(sorted(got)), _sh(sorted(exp))))
                         return
+                if oi == 0:
+                    try:
+                        sorder = [p.decode("utf-8") for p in order]
+                    except UnicodeDecodeError:
+                        sorder = None
+                    if sorder is not None:
+                        try:
+                            gs = sorted(tuple(x) for x in t.get_webentity_pagelinks(wid, sorder, include_inbound=True, include_internal=True, include_outbound=True))
+                            gb = sorted(tuple(x) for x in t.get_webentity_pagelinks(wid, order, include_inbound=True, include_internal=True, include_outbound=True))
+                            so, si = set(t.get_webentity_outlinks(wid, sorder)), set(t.get_webentity_inlinks(wid, sorder))
+                        except Exception as e:
+                            ctx.fail("str-prefixes", "per-webentity link queries of %r with the prefixes handed over as str failed: %s: %s" % (wid, type(e).__name__, e))
+                            return
+                        if gs != gb or so != set(t.get_webentity_outlinks(wid, order)) or si != set(t.get_webentity_inlinks(wid, order)):
+                            ctx.fail("str-prefixes", "page links of webentity %r with the prefixes handed over as str are %s; as bytes %s" % (wid, _sh(gs), _sh(gb)))
+                            return
                 try:
                     t.get_webentity_pagelinks(wid, order, include_inbound=False, include_internal=False, include_outbound=False)
                     ctx.fail("all-false-accepted", "page links with all three switches off were not refused")
